@@ -282,7 +282,11 @@ def generated_ctl(ctx, h, flavours, dist, nontrivial):
     calls) translated by the real wat2c, compiled and run on an argument grid against wazero"""
     from gen import c03_ctl as GC
     n = 210 if ctx.tier == "quick" else 1400
-    fns = [GC.gen_function(ctx.rng, "g%d" % i, "B" if i % 7 == 5 else ("C" if i % 7 == 6 else "A")) for i in range(n)]
+    # a form the tree is KNOWN to mistranslate gets its own stream (its finding then cannot mask anything else); otherwise it is part of the main stream
+    sep = [m for m, key in (("B", "gen-ctl:br_table-result"), ("C", "gen-ctl:br-multi-result-overlap")) if any(k["key"] == key for k in ctx.known)]
+    main = "A" + "".join(m for m in "BC" if m not in sep)
+    dist["gen_ctl_streams"] = {"main": main, "separate": sep}
+    fns = [GC.gen_function(ctx.rng, "g%d" % i, sep[(i % 7) - 5] if i % 7 >= 5 and (i % 7) - 5 < len(sep) else main) for i in range(n)]
     # translate every function alone first: a panic of wat2c on one function must not hide the others
     probe_in = "\n".join("%s %s" % (f.name, GC.module_text([f]).replace("\n", " ")) for f in fns) + "\n"
     _, out, _ = ctx.run_bin(h, args=["probe"], input_text=probe_in, timeout=1800)
